@@ -22,7 +22,8 @@ GEN_MODULES = ['grid']
 MODEL_TARGETS = ['model/M_Grid.vo', 'model/M_GridSF.vo', 'model/M_GridPdf.vo']
 PROOF_TARGETS = ['proofs/P_Grid.vo', 'proofs/P_GridInterp.vo', 'proofs/P_GridSF.vo', 'proofs/P_GridCall.vo',
                  'proofs/P_GridLocal.vo', 'proofs/P_GridIrr.vo', 'proofs/P_GridExt.vo', 'proofs/P_GridCache.vo',
-                 'proofs/P_GridHist.vo', 'proofs/P_GridPdf.vo', 'proofs/P_GridBelow.vo']
+                 'proofs/P_GridHist.vo', 'proofs/P_GridPdf.vo', 'proofs/P_GridBelow.vo',
+                 'proofs/P_GridMember.vo', 'proofs/P_GridEnd.vo', 'proofs/P_GridAuto.vo']
 LEVEL = 'proof'
 RULE = ('regular grids: origin in {0, few-decimal, full-precision random, large (58000, 1e5..)} x spacing '
         'in 1e-3..1e3 (decimal and dyadic) x 2..200 points x {from_range, explicit delta, delta=None} x '
